@@ -19,7 +19,7 @@ EXIT_OK, EXIT_VIOLATION, EXIT_HARNESS = 0, 1, 3
 
 class Case(object):
     def __init__(self, name, fn, params=None, timeout=60.0, max_paths=64, feas_timeout=10.0, twiddle_base=None,
-                 expect_sat=False, lemma=False, max_decisions=200, cvc5=False, max_replays=3):
+                 expect_sat=False, lemma=False, max_decisions=200, cvc5=False, max_replays=3, wall=None):
         self.name = name
         self.fn = fn
         self.params = params or {}
@@ -31,6 +31,7 @@ class Case(object):
         self.max_decisions = max_decisions
         self.cvc5 = cvc5
         self.max_replays = max_replays
+        self.wall = wall                  # wall-clock budget for the whole case (s); None = 4x timeout + 120
 
 
 def load_check(cid):
@@ -78,6 +79,16 @@ def run_case(args):
     paths = 0
     outcomes = {}
     nreplays = 0
+    import signal
+
+    class CaseTimeout(BaseException):
+        pass
+
+    def _on_alarm(signum, frame):
+        raise CaseTimeout()
+    budget = case.wall if case.wall else 4 * case.timeout + 120
+    signal.signal(signal.SIGALRM, _on_alarm)
+    signal.setitimer(signal.ITIMER_REAL, budget)
     try:
         for h, c, outcome in engine.explore(case.fn, case.params, case.max_paths, case.feas_timeout, stats,
                                             case.max_decisions):
@@ -99,6 +110,17 @@ def run_case(args):
                 from symx.number import SymBool
                 h.claims.append(engine.Claim(lab, 'fail', SymBool.const(True), pcs, ax, outcome))
             twin_done = None
+            if h.claims:
+                # vacuity guard first: the path's reachability twin (axioms + path condition, no claim)
+                ttext, _ = engine.claim_query(h.claims[-1], twin=True)
+                tr, _, ts, _ = smt.solve(ttext, min(case.timeout, 30), want_model=False)
+                twin_done = tr
+                stats['twin_queries'] = stats.get('twin_queries', 0) + 1
+                if tr == 'unsat':
+                    outcomes['vacuous'] = outcomes.get('vacuous', 0) + 1
+                    continue
+                if tr == 'sat':
+                    stats['reachable_paths'] = stats.get('reachable_paths', 0) + 1
             for cl in h.claims:
                 text, names = engine.claim_query(cl)
                 key = hashlib.sha1((cl.label + text).encode()).hexdigest()
@@ -127,16 +149,10 @@ def run_case(args):
                         r2, _, s2, _ = smt.solve(text, min(case.timeout, 60), want_model=False, solver="cvc5")
                         rec['cvc5'] = r2
                         rec['cvc5_seconds'] = round(s2, 3)
-                    # vacuity: reachability twin of this path (once)
-                    if twin_done is None:
-                        ttext, _ = engine.claim_query(cl, twin=True)
-                        tr, _, ts, _ = smt.solve(ttext, min(case.timeout, 30), want_model=False)
-                        twin_done = tr
-                        rec['twin_seconds'] = round(ts, 3)
                     rec['twin'] = twin_done
-                    if twin_done == 'unsat':
+                    if twin_done != 'sat':
                         rec['verdict'] = 'inconclusive'
-                        rec['why'] = 'reachability twin unsat (vacuous path)'
+                        rec['why'] = 'reachability twin of the path is %s (cannot exclude a vacuous pass)' % twin_done
                 elif r == 'sat':
                     if case.lemma:
                         rec['verdict'] = 'inconclusive'
@@ -165,9 +181,16 @@ def run_case(args):
                         else:
                             rec['verdict'] = 'unreproduced'
                 recs.append(rec)
+    except CaseTimeout:
+        recs.append(dict(case=case.name, label='<case>', verdict='inconclusive',
+                         why='case wall-clock budget (%ds) exceeded during symbolic execution / solving' % budget))
     except BaseException as e:        # noqa
         recs.append(dict(case=case.name, label='<case>', verdict='harness-error',
                          why="%s: %s" % (type(e).__name__, traceback.format_exc()[-1500:])))
+    signal.setitimer(signal.ITIMER_REAL, 0)
+    if not any(r.get('solver') for r in recs) and not any(r['verdict'] in ('inconclusive', 'harness-error') for r in recs):
+        recs.append(dict(case=case.name, label='<case>', verdict='inconclusive',
+                         why='no claim was reached on any feasible path (vacuous case)'))
     if case.expect_sat:
         # invert: a witness twin passes iff some claim came back violated/sat
         got = any(r.get('verdict') in ('violation', 'unreproduced') for r in recs)
